@@ -597,6 +597,23 @@ func (c *Ctx) modifiedIn(env *Env, nodes []ast.Node) (vars map[types.Object]bool
 		case *ast.IndexExpr:
 			markLhs(x.X)
 		case *ast.StarExpr:
+			// *p = v: a pointer to a non-struct value lives in the heap "ptr.<sort>" only
+			if t := env.pkg.info.TypeOf(x.X); t != nil {
+				if pt, ok := types.Unalias(env.subst(t)).Underlying().(*types.Pointer); ok {
+					if _, isSt := types.Unalias(pt.Elem()).Underlying().(*types.Struct); !isSt {
+						f := env.sortOf(pt.Elem())
+						fields[f] = true
+						if id, ok := unparen(x.X).(*ast.Ident); ok && c.modDepth == 0 {
+							if o := env.resolveIdent(id); o != nil {
+								c.lastDirect[f] = append(c.lastDirect[f], o)
+								return
+							}
+						}
+						c.lastIndirect[f] = true
+						return
+					}
+				}
+			}
 			heapAll = true
 		}
 	}
@@ -766,6 +783,21 @@ func (c *Ctx) havocLoopTargets(env *Env, st *State, nodes []ast.Node) {
 	for o := range vars {
 		if v, ok := st.vars[o]; ok && v.T != "" {
 			st.vars[o] = env.havoc(st, o.Name(), v.Ty)
+		}
+	}
+	// cells written through *p with p a plain pointer variable: make sure the cell heap exists now,
+	// so that only the cell of p is forgotten (an untouched heap would be forgotten as a whole later)
+	for f := range fields {
+		if !c.lastIndirect[f] && len(c.lastDirect[f]) > 0 {
+			for _, o := range c.lastDirect[f] {
+				if v, ok := st.vars[o]; ok && v.Ty != nil {
+					if pt, ok := types.Unalias(env.subst(v.Ty)).Underlying().(*types.Pointer); ok && env.sortOf(pt.Elem()) == f {
+						if _, isSt := types.Unalias(pt.Elem()).Underlying().(*types.Struct); !isSt {
+							env.heapTerm(st, "ptr."+f, f)
+						}
+					}
+				}
+			}
 		}
 	}
 	for _, k := range sortedKeys(st.heap) {
